@@ -35,6 +35,14 @@ Theorem C07_ids_unique_trace :
 Proof. exact run_inv. Qed.
 Print Assumptions C07_ids_unique_trace.
 
+(* and to whole trees of kustomization layers: every layer starts from the empty map, merges the accumulators
+   of its bases with AppendAll (the cross-layer re-check) and then runs its own trace; [layer_safe] collects
+   the side conditions of all traces *)
+Theorem C07_ids_unique_layers :
+  forall l m, layer_safe l -> accumulate l = Ok m -> Inv m.
+Proof. exact accumulate_inv. Qed.
+Print Assumptions C07_ids_unique_layers.
+
 (* the injectivity facts that carry uniqueness through the renaming transformers *)
 Theorem C07_prefix_injective : forall p a b : string, (p ++ a)%string = (p ++ b)%string -> a = b.
 Proof. exact append_inj_l. Qed.
